@@ -45,7 +45,7 @@ def ref_nf_zm(m, k, q2):
     return 3 + sum(1 for t in _thr(m, k) if t <= Fraction(q2))
 
 
-def states(tier, seed):
+def _states_base(tier, seed):
     out = []
     alph = [(DYADIC_M, k, "dyadic") for k in (DYADIC_K if tier == "thorough" else DYADIC_K[:6])] + [(m, k, "generic") for m, k in GENERIC]
     for m, k, typ in alph:
@@ -90,6 +90,30 @@ def _nonzero_quark_rows(val):
 def _v(st, what, msg):
     fp = dict(st, cls=what)
     return {"fp": fp, "fpkey": {"cls": what, "t": st["t"], "variant": st.get("variant"), "scheme": st.get("scheme", st.get("fns"))}, "msg": msg}
+
+
+def states(tier, seed):
+    """quick = the full base lattice; thorough = base lattice + the deep extension."""
+    base = _states_base("thorough", seed)
+    if tier == "quick":
+        return base
+    seen = {digest(s) for s in base}
+    return base + [s for s in _states_deep(seed) if digest(s) not in seen]
+
+
+def _states_deep(seed):
+    out = []
+    ks = [k for k in itertools.product((1.0, 2.0, 0.5, 1.5), repeat=3)]
+    for k in ks:
+        thr = [float(t) for t in _thr(DYADIC_M, k)]
+        if sorted(thr) != thr:
+            continue
+        for ti, T in enumerate(thr):
+            for lab, q2 in (("ulp-", math.nextafter(T, 0.0)), ("at", T), ("ulp+", math.nextafter(T, math.inf))):
+                out.append({"t": "zm", "m": list(DYADIC_M), "k": list(k), "typ": "dyadic", "thr": ti, "variant": lab, "Q2": q2})
+    for fns, nf, q2 in itertools.product(["FFNS", "FFN0", "FONLL-FFNS", "FONLL-FFN0"], [3, 4, 5], [0.11, 1.0, 2.28, 2.29, 24.2, 24.3, 29756.0, 29757.0, 1e6]):
+        out.append({"t": "ff", "fns": fns, "nf": nf, "Q2": q2})
+    return out
 
 
 def execute(st):
